@@ -237,6 +237,177 @@ theorem forged_header_not_marked_not_queued :
     (handleBlobs proposer {} 7 [(forgedHeader.encode, forgeO), (forgedData.encode, forgeO)] []).2.length = 0 := by
   decide +kernel
 
+/-! ## the P2P library entry (go-header) and the header store of a header-only (light) node
+
+`p2pLibAdmit o trusted bs` is what go-header does with a header received over gossip or in an exchange session
+before it is stored (full nodes serve their store to light clients; header-only nodes keep nothing else):
+`New()` + `UnmarshalBinary`, `Validate()`, then `header.Verify(trusted, untrusted)` — the library's general checks
+(chain id, height above the trusted one, time order, not from the future) and `SignedHeader.Verify` (same proposer
+address; for adjacent heights the hash link).  Since /repo 35dfc53 `Validate()` is `ValidateBasic()`; before, the
+method promoted from the embedded unsigned `Header` (a proposer address is present): `p2pLibAdmitOld`. -/
+
+theorem p2plib_accepted_iff (o : Oracle) (tr : Option SignedHeader) (bs : Bytes) :
+    p2pLibAdmit o tr bs = .accepted ↔
+      ∃ sh, headerStage o bs = .ok sh ∧ validateBasicWire o sh = true ∧ ∀ t, tr = some t → libVerify t sh = true := by
+  unfold p2pLibAdmit p2pLibAdmitWith libValidate
+  cases hs : headerStage o bs with
+  | wireErr => simp
+  | fromProtoErr => simp
+  | ok sh =>
+    cases hv : validateBasicWire o sh with
+    | false => simp [hv]
+    | true =>
+      cases tr with
+      | none => simp [hv]
+      | some t => cases hl : libVerify t sh <;> simp [hv, hl]
+
+/-- what `header.Verify` ties the received header to: the trusted header's proposer address, a greater height,
+and — when it is the next height — the trusted header's hash -/
+theorem libVerify_spec (tr un : SignedHeader) (h : libVerify tr un = true) :
+    un.header.proposerAddress = tr.header.proposerAddress ∧ un.header.chainId = tr.header.chainId ∧
+    tr.header.height < un.header.height ∧
+    (tr.header.height + 1 = un.header.height → un.header.lastHeaderHash = tr.header.hash) := by
+  simp only [libVerify, Bool.and_eq_true, Bool.or_eq_true, decide_eq_true_eq, Bool.not_eq_true', decide_eq_false_iff_not] at h
+  obtain ⟨⟨⟨⟨⟨h1, h2⟩, _⟩, _⟩, h5⟩, h6⟩ := h
+  refine ⟨h5, h1, h2, fun ha => ?_⟩
+  rcases h6 with h6 | h6
+  · exact absurd ha h6
+  · exact h6.symm
+
+/-- accepted against a trusted header naming the proposer ⇒ it passes the test of the P2P admission path -/
+theorem p2plib_accepted_admitted (o : Oracle) (p : Bytes) (t : SignedHeader) (bs : Bytes)
+    (hp : t.header.proposerAddress = p) (h : p2pLibAdmit o (some t) bs = .accepted) :
+    ∃ sh, headerStage o bs = .ok sh ∧ p2pAdmit o p sh = true ∧ libVerify t sh = true := by
+  obtain ⟨sh, hs, hv, hl⟩ := (p2plib_accepted_iff o (some t) bs).1 h
+  have hl' := hl t rfl
+  exact ⟨sh, hs, by simp [p2pAdmit, hv, (libVerify_spec t sh hl').1, hp], hl'⟩
+
+/-- hypothesis-free form -/
+theorem p2plib_by_proposer_or_collision (o : Oracle) (R : Bytes) (t : SignedHeader) (bs : Bytes)
+    (hp : t.header.proposerAddress = keyAddress R) (h : p2pLibAdmit o (some t) bs = .accepted) :
+    ∃ sh, headerStage o bs = .ok sh ∧ sh.header.proposerAddress = keyAddress R ∧
+      (SignedByProposer o R sh ∨ AddrCollision o R sh.signer.pubKey) := by
+  obtain ⟨sh, hs, ha, hl⟩ := p2plib_accepted_admitted o _ t bs hp h
+  exact ⟨sh, hs, by rw [(libVerify_spec t sh hl).1, hp], p2p_by_proposer_or_collision o R sh ha⟩
+
+/-- **every header the P2P library entry accepts against a trusted header that names the genesis proposer is
+signed by the genesis proposer** (full and light nodes alike; same hypotheses as `C03_header_full`) — and it names
+the proposer again, so it can serve as the next trusted header -/
+theorem C03_p2plib_full (R : Bytes) (hnc : AddrNoCollision R) (o : Oracle) (t : SignedHeader) (bs : Bytes)
+    (hp : t.header.proposerAddress = keyAddress R) (h : p2pLibAdmit o (some t) bs = .accepted) :
+    ∃ sh, headerStage o bs = .ok sh ∧ sh.header.proposerAddress = keyAddress R ∧
+      (OtherKeyTypeNoCollision o R sh.signer.pubKey → SignedByProposer o R sh) := by
+  obtain ⟨sh, hs, hpa, hor⟩ := p2plib_by_proposer_or_collision o R t bs hp h
+  exact ⟨sh, hs, hpa, fun hother => hor.resolve_right (no_collision_of_hyps hnc hother)⟩
+
+/-- the first header of a node without a trusted header (it is then compared with a configured trusted hash /
+genesis, outside this model): `Validate()` alone already makes it self-consistent — if it names the genesis
+proposer it is signed by the genesis proposer -/
+theorem C03_p2plib_first_header (o : Oracle) (R bs : Bytes) (h : p2pLibAdmit o none bs = .accepted) :
+    ∃ sh, headerStage o bs = .ok sh ∧
+      (sh.header.proposerAddress = keyAddress R → SignedByProposer o R sh ∨ AddrCollision o R sh.signer.pubKey) := by
+  obtain ⟨sh, hs, hv, _⟩ := (p2plib_accepted_iff o none bs).1 h
+  exact ⟨sh, hs, fun hp => p2p_by_proposer_or_collision o R sh (by simp [p2pAdmit, hv, hp])⟩
+
+/-- the header store of a header-only node: messages are received one by one, each is put through the library
+entry against the current head, and appended (becoming the head) when accepted.  (go-header: subscriber →
+syncer → store; header ranges and the bifurcation of non-adjacent soft failures are not modelled.) -/
+def lightStore : SignedHeader → List (Bytes × Oracle) → List (SignedHeader × Oracle) → SignedHeader × List (SignedHeader × Oracle)
+  | head, [], acc => (head, acc)
+  | head, (b, o) :: rest, acc =>
+    match headerStage o b with
+    | .ok sh => if p2pLibAdmit o (some head) b = .accepted then lightStore sh rest (acc ++ [(sh, o)])
+                else lightStore head rest acc
+    | _ => lightStore head rest acc
+
+/-- **The store of a header-only node holds only headers signed by the genesis proposer**, whatever arrives over
+P2P in whatever order (or a collision is in hand); the head keeps naming the proposer and heights only grow. -/
+theorem light_store_only_proposer_headers (R : Bytes) :
+    ∀ (msgs : List (Bytes × Oracle)) (head : SignedHeader) (acc : List (SignedHeader × Oracle)),
+      head.header.proposerAddress = keyAddress R →
+      (∀ e ∈ acc, SignedByProposer e.2 R e.1 ∨ AddrCollision e.2 R e.1.signer.pubKey) →
+      (lightStore head msgs acc).1.header.proposerAddress = keyAddress R ∧
+      head.header.height ≤ (lightStore head msgs acc).1.header.height ∧
+      ∀ e ∈ (lightStore head msgs acc).2, SignedByProposer e.2 R e.1 ∨ AddrCollision e.2 R e.1.signer.pubKey := by
+  intro msgs
+  induction msgs with
+  | nil => intro head acc hp hacc; exact ⟨hp, Nat.le_refl _, hacc⟩
+  | cons m rest ih =>
+    intro head acc hp hacc
+    obtain ⟨b, o⟩ := m
+    unfold lightStore
+    cases hs : headerStage o b with
+    | wireErr => exact ih head acc hp hacc
+    | fromProtoErr => exact ih head acc hp hacc
+    | ok sh =>
+      simp only
+      split
+      · rename_i hacc'
+        obtain ⟨sh', hs', hpa, hor⟩ := p2plib_by_proposer_or_collision o R head b hp hacc'
+        have : sh' = sh := by rw [hs] at hs'; injection hs' with e; exact e.symm
+        subst this
+        obtain ⟨_, _, ha, hl⟩ := p2plib_accepted_admitted o _ head b hp hacc'
+        rename_i sh2 hs2
+        have e2 : sh2 = sh' := by rw [hs] at hs2; injection hs2 with e; exact e.symm
+        subst e2
+        obtain ⟨a, b', c⟩ := ih sh2 (acc ++ [(sh2, o)]) hpa (by
+          intro e he
+          rcases List.mem_append.mp he with he | he
+          · exact hacc e he
+          · have : e = (sh2, o) := by simpa using he
+            subst this; exact hor)
+        exact ⟨a, Nat.le_trans (Nat.le_of_lt (libVerify_spec head sh2 hl).2.2.1) b', c⟩
+      · exact ih head acc hp hacc
+
+/-! ### witnesses -/
+
+/-- the next header as the proposer signs it -/
+def genuineNext : SignedHeader :=
+  { header := { height := 2, time := 6, lastHeaderHash := genuineHeader.header.hash, proposerAddress := proposer, chainId := "c" },
+    signature := [7, 7], signer := { address := proposer, pubKey := proposerKey } }
+/-- the same header as anybody can write it: no signature, no signer — it names the proposer and links to the head -/
+def unsignedNext : SignedHeader := { genuineNext with signature := [], signer := {} }
+/-- nothing verifies: no key, no signature -/
+def nothingO : Oracle := { keyOk := false, hdrSigOk := false, dataSigOk := false }
+
+/-- kernel-evaluated: **before /repo 35dfc53 the library entry accepted an unsigned header** that names the proposer
+and links to the head (it entered the P2P header store of full and light nodes) -/
+theorem old_p2plib_accepted_unsigned :
+    p2pLibAdmitOld nothingO (some genuineHeader) unsignedNext.encode = .accepted := by decide +kernel
+/-- and a forged one under the proposer's address with a foreign key, and a garbage-signed one -/
+theorem old_p2plib_accepted_forged :
+    p2pLibAdmitOld forgeO (some genuineHeader)
+      ({ genuineNext with signer := { address := proposer, pubKey := foreignKey } } : SignedHeader).encode = .accepted ∧
+    p2pLibAdmitOld { forgeO with hdrSigOk := false } (some genuineHeader) genuineNext.encode = .accepted := by
+  decide +kernel
+/-- kernel-evaluated: **now they are rejected at `Validate()`** -/
+theorem new_p2plib_rejects_unsigned :
+    p2pLibAdmit nothingO (some genuineHeader) unsignedNext.encode = .rejValidate ∧
+    p2pLibAdmit forgeO (some genuineHeader)
+      ({ genuineNext with signer := { address := proposer, pubKey := foreignKey } } : SignedHeader).encode = .rejValidate ∧
+    p2pLibAdmit { forgeO with hdrSigOk := false } (some genuineHeader) genuineNext.encode = .rejValidate ∧
+    p2pLibAdmit nothingO none unsignedNext.encode = .rejValidate := by decide +kernel
+/-- non-vacuity: the genuine next header is accepted (against the head, against nothing), a genuine header with a
+broken link or an old height is rejected at `Verify` -/
+theorem genuine_next_accepted :
+    p2pLibAdmit forgeO (some genuineHeader) genuineNext.encode = .accepted ∧
+    p2pLibAdmit forgeO none genuineNext.encode = .accepted ∧
+    p2pLibAdmit forgeO (some genuineNext) genuineHeader.encode = .rejVerify ∧
+    p2pLibAdmit forgeO (some genuineHeader)
+      ({ genuineNext with header := { genuineNext.header with lastHeaderHash := [1] } } : SignedHeader).encode = .rejVerify := by
+  decide +kernel
+example : ∃ sh, headerStage forgeO genuineNext.encode = .ok sh ∧ sh.header.proposerAddress = keyAddress proposerRaw ∧
+    (SignedByProposer forgeO proposerRaw sh ∨ AddrCollision forgeO proposerRaw sh.signer.pubKey) :=
+  p2plib_by_proposer_or_collision forgeO proposerRaw genuineHeader _ rfl genuine_next_accepted.1
+example (hnc : AddrNoCollision proposerRaw) : ∃ sh, headerStage forgeO genuineNext.encode = .ok sh ∧
+    sh.header.proposerAddress = keyAddress proposerRaw ∧
+    (OtherKeyTypeNoCollision forgeO proposerRaw sh.signer.pubKey → SignedByProposer forgeO proposerRaw sh) :=
+  C03_p2plib_full proposerRaw hnc forgeO genuineHeader _ rfl genuine_next_accepted.1
+/-- a light node fed the unsigned header, the forged one, junk, then the genuine one stores the genuine one only -/
+example : ((lightStore genuineHeader
+      [(unsignedNext.encode, nothingO), ([0xff], nothingO), (genuineNext.encode, forgeO), (unsignedNext.encode, nothingO)] []).2.map
+        (fun e => e.1.header.height)) = [2] := by decide +kernel
+
 /-! ## rejections that hold without any hypothesis -/
 
 /-! ### the binding itself: near misses -/
